@@ -289,7 +289,14 @@ def declared_walk(pep):
     scal, lmis = [], []
     scal += list(pep.list_of_constraints)
     lmis += list(pep.list_of_psd)
-    for f in Function.list_of_functions:
+    funcs = list(Function.list_of_functions)
+    for f in list(funcs):
+        # the transposed twin of a linear operator is a function object of its own: whatever the registry says, what the
+        # user declared on it is part of the model
+        t_ = getattr(f, "T", None)
+        if t_ is not None and isinstance(t_, Function) and not any(t_ is g for g in funcs):
+            funcs.append(t_)
+    for f in funcs:
         scal += list(f.list_of_constraints)
         lmis += list(f.list_of_psd)
         if f.get_is_leaf():
